@@ -67,7 +67,7 @@ type c05Out struct {
 var c05None = c05Out{"none", 0}
 
 // interface{} family, second concretisation ("print-alike"): distinct abstract elements become values of DIFFERENT Go types that
-// print the same (1, "1", int64(1); 0, "0"), so an implementation that identifies elements by their printed form is told apart
+// print the same (1, "1", int64(1); "0"; abstract 0 travels as a nil element), so an implementation that identifies elements by their printed form is told apart
 // from one that uses Go equality.  The generic twin keeps plain ints; results are compared in the abstract space.
 var c05Alike bool
 
@@ -76,6 +76,8 @@ func cI(x int) interface{} {
 		return x
 	}
 	switch x {
+	case 0:
+		return nil // a nil element is an element like any other
 	case 2:
 		return "1"
 	case 3:
@@ -86,6 +88,9 @@ func cI(x int) interface{} {
 	return x
 }
 func aI(v interface{}) int {
+	if v == nil {
+		return 0
+	}
 	switch t := v.(type) {
 	case int:
 		return t
